@@ -17,9 +17,9 @@ CLAIMED["C12"] = ("5/C12",
    "finite-domain abstract interpretation over SSA + alias/effect analysis + must-pass-through (dominance) rule")
 
 CLAIMED["C16"] = ("5/C16",
-   "Narrow structural claim on the query side of osmoutils/sumtree/tree.go: which components of the three-way split each range-sum API adds under which nil-bound condition (sentinel consistency), Increase/Decrease as read-modify-write with (negated) amount on the same key, and the leaf case mapping key comparison -1/0/+1 to left/exact/right.",
-   "Not covered: node.go (push/split/pull/merge), equivalence with a sorted map over operation sequences, fan-out settings. Trusted: go/ssa, node.go helpers.",
-   "SSA origin-term rules: return-value formulas under dominating nil-tests, phi-edge case analysis")
+   "Structural necessary conditions on both sides of osmoutils/sumtree. Query side (tree.go): which components of the three-way split each range-sum API adds under which nil-bound condition (sentinel consistency), Increase/Decrease as read-modify-write with (negated) amount on the same key, leaf case mapping key comparison -1/0/+1 to left/exact/right, interior case descending into child idx only when it exists. Node side (node.go): every stored node value is the one whose accumulate() is reported to the parent (push, pull, merge, updateAccumulation), an emptied node is removed from its parent under its own key and deleted only when the left sibling inheriting its key range has the same parent, siblings merge only under one parent and when they fit, the 8-bit split position cannot wrap (interval evaluation), split/merge slice bounds, loud failure on unknown children.",
+   "Not covered: equivalence with a sorted map over operation sequences as such (the rules are necessary conditions found by reading the three repaired defects F8-F10 and the seeded changes), iteration order, every fan-out as a value. Trusted: go/ssa, KV store iterator semantics used by parent()/siblings.",
+   "SSA origin-term rules: return-value formulas under dominating nil-tests, phi-edge case analysis, stored-equals-reported pairing, guard/argument rules, unsigned interval (no-wrap) evaluation")
 
 CLAIMED["C15"] = ("5/C15",
    "Static rules over osmoutils/accum decide: the claimable formula unclaimed + (value - snapshot) x shares; every share mutation folds accrued rewards into the record, writes old +/- delta shares under the same name, and updates the re-read accumulator total by the same delta with the same sign before persisting; failure guards (non-positive delta, remove > held, zero update, unknown position, negative rewards) precede all writes; claim resets or deletes exactly the claimer and truncates only via TruncateDecimal; the writers of position and accumulator records are the listed mutators.",
@@ -46,6 +46,7 @@ CLAIMED["C19"] = ("5/C19",
    "AST/type-based determinism lint, genesis field-coverage analysis, keeper-field write scan with call-graph classification")
 FIX_COMMITS.append("59282cb358")
 FIX_COMMITS.append("d2a0ad067f")
+FIX_COMMITS += ["35b50d1c51", "5b670324a2", "bcb8c3a391"]
 
 CLAIMED["C20"] = ("5/C20",
    "Interprocedural guard propagation (rule GI) over the workspace call graph: for all 37 message handlers of concentrated-liquidity, lockup, superfluid, tokenfactory and valset-pref (signer field read from each message's GetSigners), every bounded-depth call path to a privileged sink (lock, position and denom mutators) carries a branch that compares a signer-identity value with the stored object's owner/admin and fails on mismatch — directly, via a checked guard helper, inside the sink on all success paths, or modulo the governance-module equality — with three creation/own-index exemptions listed with side conditions.",
